@@ -36,6 +36,10 @@ def _limits(mem_gb):
     def f():
         b = int(mem_gb * (1 << 30))
         resource.setrlimit(resource.RLIMIT_AS, (b, b))
+        try:   # deep recursion in cbmc's expression simplifier on large concrete copies
+            resource.setrlimit(resource.RLIMIT_STACK, (resource.RLIM_INFINITY, resource.RLIM_INFINITY))
+        except Exception:
+            pass
         os.setsid()
     return f
 
@@ -161,7 +165,7 @@ def extract_inputs(trace):
 UB_NOTE_PAT = re.compile(r"pointer relation|pointer arithmetic|pointer_arithmetic|pointer outside object bounds in|same object violation")
 
 
-def classify(results):
+def classify(results, removed=()):
     """-> (violations, ub_notes, unwinding_failures) lists of (property, description)."""
     viol, notes, unw = [], [], []
     for r in results:
@@ -169,6 +173,8 @@ def classify(results):
             continue
         prop = r.get("property", "")
         desc = r.get("description", "")
+        if ".no-body." in prop and prop.split(".no-body.")[-1] in removed:
+            continue   # body deliberately removed by the plan (`remove`): CBMC 6 flags the call, not a violation
         if "unwinding assertion" in desc or ".unwind." in prop:
             unw.append((prop, desc))
         elif ".pointer_arithmetic." in prop or (UB_NOTE_PAT.search(desc) and "dereference" not in desc):
@@ -240,8 +246,9 @@ def cbmc_query(qid, params, ctx):
             return None, msg
         gbs.append(g)
         rem = params.get("remove", [])
-        if rem:
-            key = hashlib.sha1(("|".join(gbs) + "|".join(rem)).encode()).hexdigest()[:16]
+        repl = params.get("replace_calls", [])
+        if rem or repl:
+            key = hashlib.sha1(("|".join(gbs) + "|".join(rem) + "|" + "|".join(repl)).encode()).hexdigest()[:16]
             linked = os.path.join(scratch, "lk_%s.gb" % key)
             ok, msg = _locked_build(linked, ["goto-cc", "-o", linked] + gbs)
             if not ok:
@@ -250,6 +257,8 @@ def cbmc_query(qid, params, ctx):
             cmd = ["goto-instrument"]
             for f in rem:
                 cmd += ["--remove-function-body", f]
+            for fg in repl:
+                cmd += ["--replace-calls", fg]
             ok, msg = _locked_build(out, cmd + [linked, out])
             if not ok:
                 return None, msg
@@ -301,7 +310,7 @@ def cbmc_query(qid, params, ctx):
         res.update(status=UNDECIDED if oom else ERROR, detail="cbmc gave no result (rc=%s): %s" % (rc, txt[-800:]))
         return res
     res["stats"]["properties_checked"] = len(results)
-    viol, notes, unw = classify(results)
+    viol, notes, unw = classify(results, params.get("remove", []))
     res["std_ub_notes"] = sorted({"%s: %s" % (p.split(".")[0], d[:100]) for p, d in notes})
     if unw and not viol:
         res.update(status=ERROR, detail="unwinding assertion failed (bound too small): %s" % unw[:3])
